@@ -176,7 +176,9 @@ def handleDrain {α} [ToString α] (T : Ty α) (op : String) (args : List String
   let parts := op.splitOn "."
   match parts, args with
   | kind :: via :: rest, [a, b] =>
-    if via ≠ "fe" ∧ via ≠ "ev" ∧ via ≠ "cc" then none else
+    -- `zfe`: the range is the argument of `zip(..)` of an equally long counter; the emitted loop steps the zipped
+    -- iterator with the same `$next_fn` as the source (Model/IterDsl: `Ad.zip`), so the items are those of `fe`
+    if via ≠ "fe" ∧ via ≠ "ev" ∧ via ≠ "cc" ∧ via ≠ "zfe" then none else
     let a ← T.parse a
     let b ← T.parse b
     let it := Iter.ofBounds a b
